@@ -141,12 +141,10 @@ namespace avel {
                 reinterpret_cast<char*>(aligned_allocation) -
                 reinterpret_cast<char*>(unaligned_allocation);
 
-            auto* offset_location =
-                reinterpret_cast<std::size_t*>(
-                    reinterpret_cast<char*>(aligned_allocation) + elements_size
-                );
-
-            new(offset_location) std::size_t{alignment_offset};
+            // The offset is stored right after the elements, which need not be
+            // a suitably aligned address for a std::size_t object
+            char* offset_location = reinterpret_cast<char*>(aligned_allocation) + elements_size;
+            std::memcpy(offset_location, &alignment_offset, sizeof(std::size_t));
 
             return reinterpret_cast<pointer>(aligned_allocation);
 
